@@ -557,12 +557,13 @@ public:
         } else if (auto *U = dyn_cast<UnaryOperator>(S)) {
             if (U->isIncrementDecrementOp()) idxWrite(ix, U->getSubExpr(), U->isIncrementOp() ? "++" : "--", nullptr, U->getOperatorLoc());
         } else if (auto *D = dyn_cast<DeclRefExpr>(S)) {
-            if (isa<FunctionDecl>(D->getDecl()) && S != directCallee)
+            if (isa<FunctionDecl>(D->getDecl()) && S != directCallee && !(directCallee && directCallee->IgnoreParenImpCasts() == S))
                 ix.refs.insert({Em.fname(cast<FunctionDecl>(D->getDecl())), Em.line(D->getBeginLoc())});
         } else if (auto *M = dyn_cast<MemberExpr>(S)) {
             if (isa<CXXMethodDecl>(M->getMemberDecl()) && S != directCallee)
                 ix.refs.insert({Em.fname(cast<FunctionDecl>(M->getMemberDecl())), Em.line(M->getBeginLoc())});
         }
+        if (!calleeOfThis && (isa<ImplicitCastExpr>(S) || isa<ParenExpr>(S))) calleeOfThis = directCallee;
         for (const Stmt *C : S->children()) scanIdx(C, ix, calleeOfThis);
     }
 
